@@ -17,6 +17,14 @@ theorem SWO.asymm {lt : Cmp} (h : SWO lt) {x y : Nat} (hxy : lt x y = true) : lt
   | false => rfl
   | true => have := h.trans x y x hxy hyx; rw [h.irrefl] at this; cases this
 
+/-- what the partition loop itself needs: an ASYMMETRIC comparator (every strict partial order is one; a strict weak ordering
+adds transitivity of incomparability, which only the meaning of "sorted" needs) -/
+structure Asym (lt : Cmp) : Prop where
+  irrefl : ∀ x, lt x x = false
+  asymm : ∀ x y, lt x y = true → lt y x = false
+
+theorem SWO.toAsym {lt : Cmp} (h : SWO lt) : Asym lt := ⟨h.irrefl, fun _ _ hxy => h.asymm hxy⟩
+
 /-- sorted w.r.t. `lt`: no later element is less than an earlier one -/
 def Sorted (lt : Cmp) (l : List Nat) : Prop := l.Pairwise (fun x y => lt y x = false)
 
@@ -140,7 +148,7 @@ theorem scanUp_spec (lt : Cmp) (a : Array Nat) (j : Nat) : ∀ (i : Nat), i ≤ 
 
 /-! ### the partition loop -/
 
-theorem partLoop_spec (lt : Cmp) (hs : SWO lt) (n key : Nat) : ∀ (fuel : Nat) (a : Array Nat) (i j : Nat),
+theorem partLoop_spec (lt : Cmp) (hs : Asym lt) (n key : Nat) : ∀ (fuel : Nat) (a : Array Nat) (i j : Nat),
     a.size = n → i < j → j ≤ n → j ≤ fuel → el a 0 = key →
     (∀ k, 1 ≤ k → k ≤ i → lt key (el a k) = false) →
     (∀ k, j ≤ k → k < n → lt (el a k) key = false) →
@@ -169,7 +177,7 @@ theorem partLoop_spec (lt : Cmp) (hs : SWO lt) (n key : Nat) : ∀ (fuel : Nat) 
       have hhigh' : ∀ k, j' < k → k < n → lt (el a k) key = false := by
         intro k h1 h2
         by_cases hk : k < j
-        · exact hs.asymm (e4 k h1 hk)
+        · exact hs.asymm _ _ (e4 k h1 hk)
         · exact hhigh k (by omega) h2
       simp only [partLoop, e1]
       rw [if_neg (by omega)]
@@ -186,7 +194,7 @@ theorem partLoop_spec (lt : Cmp) (hs : SWO lt) (n key : Nat) : ∀ (fuel : Nat) 
           intro k h1 h2
           by_cases hk : k ≤ i
           · exact hlow k h1 hk
-          · exact hs.asymm (v2 k (by omega) h2)
+          · exact hs.asymm _ _ (v2 k (by omega) h2)
       | false =>
           simp only [Bool.false_eq_true, if_false]
           obtain ⟨v1, v2, v3, v4⟩ := u2 rfl
@@ -198,7 +206,7 @@ theorem partLoop_spec (lt : Cmp) (hs : SWO lt) (n key : Nat) : ∀ (fuel : Nat) 
             · exact hlow k h1 hk
             · by_cases hk2 : k = j'
               · subst hk2; exact e3
-              · exact hs.asymm (v4 k (by omega) (by omega))
+              · exact hs.asymm _ _ (v4 k (by omega) (by omega))
           · rw [if_neg hieq]
             have hi'n : i' < a.size := by omega
             have hj'n : j' < a.size := by omega
@@ -214,7 +222,7 @@ theorem partLoop_spec (lt : Cmp) (hs : SWO lt) (n key : Nat) : ∀ (fuel : Nat) 
                   · rw [if_neg hk]
                     by_cases hk2 : k ≤ i
                     · exact hlow k h1 hk2
-                    · exact hs.asymm (v4 k (by omega) (by omega)))
+                    · exact hs.asymm _ _ (v4 k (by omega) (by omega)))
                 (by
                   intro k h1 h2
                   rw [hsw k]
@@ -227,7 +235,7 @@ theorem partLoop_spec (lt : Cmp) (hs : SWO lt) (n key : Nat) : ∀ (fuel : Nat) 
 /-- `split_range` on a non-empty array and a strict weak order: never leaves the array; the result is a
 permutation; everything left of the pivot position is not greater than the pivot, everything right
 of it is not less; the pivot position is inside the array. -/
-theorem splitRange_spec (lt : Cmp) (hs : SWO lt) (a : Array Nat) (hn : 0 < a.size) :
+theorem splitRange_spec (lt : Cmp) (hs : Asym lt) (a : Array Nat) (hn : 0 < a.size) :
     ∃ a' j, splitRange lt a = some (a', j) ∧ a'.Perm a ∧ a'.size = a.size ∧ j < a.size ∧
       (∀ k, k < j → lt (el a' j) (el a' k) = false) ∧
       (∀ k, j < k → k < a.size → lt (el a' k) (el a' j) = false) := by
